@@ -194,6 +194,8 @@ def subchecks(tier):
     return [
         Sub("aligner-unit", "hyp", check_unit, strategy=unit_case_strategy, examples=24000 if q else 600000, shrink_budget=600,
             describe="Aligner.align on real label data with ladders of seed peaks", required_classes=("segments=3",)),
+        Sub("swarm", "hyp", check_unit, strategy=gen_unit.swarm_case, examples=400 if q else 12000, shrink_budget=100,
+            describe="Aligner.align seeded by 18-40 peaks 25-100 bp apart on a molecule of 1-3 labels"),
         Sub("aligner-history", "hyp", check_unit_history, strategy=unit_history_strategy, examples=8000 if q else 200000, shrink_budget=600,
             describe="one Aligner instance reused for a query, its fragments (same id and length), the other strand and other molecules",
             required_classes=("then-fragment",)),
